@@ -18,3 +18,4 @@ Check C16_v1_prefix_free : forall t u a b, wf1 t -> wf1 u -> same_shape1 t u -> 
 Check C16_v1_extension : forall t u e e' a b ae be, wf1 (t ++ e) -> wf1 (u ++ e') -> same_shape1 t u -> encode1 t = Some a -> encode1 u = Some b -> encode1 (t ++ e) = Some ae -> encode1 (u ++ e') = Some be -> (e <> [] -> lex_cmp a ae = Lt) /\ (known_F12 t u = false -> tuple_cmp1 t u = Lt -> lex_cmp ae be = Lt) /\ (known_F12 t u = false -> tuple_cmp1 t u = Gt -> lex_cmp ae be = Gt).
 Check C16_v1_decode_encode : forall via t a rest, wf1 t -> Forall (fun fl => utf8_el1 (f_val fl)) t -> encode1 t = Some a -> decode1 via (map shape_of t) (a ++ rest) = Ok1 (map f_val t).
 Check C16_v1_decode_no_panic : forall via shape bytes, decode1 via shape bytes <> Panic1.
+Check C16_v1_peek_next : forall fl t a rest, wf1 (fl :: t) -> encode1 (fl :: t) = Some a -> peek_next (a ++ rest) = Some (Some (f_num fl, kty_of (f_val fl), f_dir fl)).
